@@ -1,4 +1,5 @@
 import UtilModel.Core.Driver
+import UtilModel.Core.DriverH
 import UtilModel.Treiber.Model
 import UtilModel.Treiber.Monitors
 import UtilModel.LinkedList.Model
@@ -9,6 +10,6 @@ open UtilModel
 
 def main (args : List String) : IO UInt32 :=
   driverMain [
-    mkEntry "lifo" Treiber.model Treiber.Obs.parse [MonEntry.ofMonitor "C12" Treiber.monC12] (cap := 1200),
-    mkEntry "linkedlist" LinkedList.model LinkedList.parseObs [MonEntry.ofMonitor "C12" LinkedList.monC12] (cap := 2000)
+    mkEntryH "lifo" Treiber.model Treiber.Obs.parse [MonEntry.ofMonitor "C12" Treiber.monC12] (cap := 60000),
+    mkEntryH "linkedlist" LinkedList.model LinkedList.parseObs [MonEntry.ofMonitor "C12" LinkedList.monC12] (cap := 60000)
   ] args
